@@ -255,6 +255,7 @@ MONITOR_PROPS = {
     "ValidateSilent": ["C09"],
     "VersionsWrong": ["C03"],
     "RestoreEscaped": ["C16"],
+    "SyscallEscaped": ["C16"],
     "ClobberedDestination": ["C16"],
     "QuiescentDangling": ["C06"],
     "QuiescentSnap": ["C06"],
